@@ -127,6 +127,13 @@ POSIX_FUNCS = ["getpagesize", "getpriority", "net_if_addrs", "net_if_flags", "ne
                "setpriority"]
 POSIX_FUNCS_BSD_OSX = ["net_if_duplex_speed"]
 
+# Which native status codes mean "zombie" to each kernel (independent transcription: sys/proc.h of the BSDs and
+# the comments of _psbsd.py - "According to /usr/include/sys/proc.h SZOMB is unused [on OpenBSD] ...
+# SDEAD really means STATUS_ZOMBIE"; docs: STATUS_ZOMBIE).  The zombie scenario is run once per code.
+# Solaris / AIX decide "zombie" by "ESRCH/ENOENT although the pid still exists", the code in the record is SZOMB.
+ZOMBIE_CODES = {"freebsd": ["SZOMB"], "netbsd": ["SZOMB"], "openbsd": ["SDEAD", "SZOMB"], "osx": ["SZOMB"],
+                "sunos": ["SZOMB"], "aix": ["SZOMB"]}
+
 # natives that are never per-process (argument checks, system-wide tables)
 SYSTEM_WIDE = {
     "check_pid_range", "set_debug", "virtual_mem", "per_cpu_times", "cpu_times", "cpu_count_logical",
@@ -491,8 +498,9 @@ class World:
 
     # -- scenario ---------------------------------------------------------------------------------
     def reset(self, pid=4321, state="live", salt=1, pid0_listed=True, no_tty=False, tty_rdev=None,
-              status=None, name="python3.9"):
+              status=None, name="python3.9", zombie_code=None):
         self.pid = pid
+        self.zombie_code = zombie_code or ZOMBIE_CODES.get(self.platform, ["SZOMB"])[0]
         self.state = state              # what the layer's status probes see
         self.salt = salt
         self.pid0_listed = pid0_listed
@@ -525,7 +533,7 @@ class World:
     def status_code(self):
         p = self.platform
         if self.state == "zombie":
-            return self.consts["SZOMB"]
+            return self.consts[self.zombie_code]   # the way this platform's kernel marks a zombie
         if self.status_name:
             return self.consts[self.status_name]
         return self.consts["SACTIVE" if p == "aix" else "SSLEEP"]
